@@ -268,11 +268,15 @@ func opMerge(variant int) *crashOp {
 				return err
 			}
 			var cd *diff.ColDiff
+			var pending []*merge.Merge
 			for m := range mch {
 				if m.ColDiff != nil {
 					cd = m.ColDiff
 					continue
 				}
+				pending = append(pending, m)
+			}
+			for _, m := range pending {
 				merger.SaveResolvedRow(m.PK, nil)
 			}
 			if err := merger.Error(); err != nil {
